@@ -167,8 +167,12 @@ func NewEmptyConfig() Configuration {
 // If there is no such namespace found in this configuration then provided the namespace specific data encoded
 // within `target` is left unmodified. However, configuration of higher scoped fields will still be attempted.
 func (c Configuration) deserializeConfigInto(target interface{}, namespace string) error {
-	if tree := c.tree.Get(namespace); tree != nil {
-		err := tree.(*toml.Tree).Unmarshal(target)
+	if section := c.tree.Get(namespace); section != nil {
+		tree, ok := section.(*toml.Tree)
+		if !ok {
+			return fmt.Errorf("the configuration entry %q is not a table", namespace)
+		}
+		err := tree.Unmarshal(target)
 		if err != nil {
 			return err
 		}
